@@ -112,7 +112,7 @@ func runC17(c *core.Ctx) {
 			// result types and values that invite shortcuts: zero values, nil pointers,
 			// nil and NON-nil errors as the last result
 			ok := true
-			switch r.Intn(6) {
+			switch r.Intn(7) {
 			case 0:
 				errs := map[int64]error{}
 				var mu sync.Mutex
@@ -134,6 +134,8 @@ func runC17(c *core.Ctx) {
 				ok = c17typed(c, r, "string(empty)", func(id int64) string { return "" })
 			case 5:
 				ok = c17typed(c, r, "bool", func(id int64) bool { return id%2 == 0 })
+			case 6:
+				ok = c17zeroSize(c, r)
 			}
 			if !ok {
 				return
@@ -401,13 +403,21 @@ func c17typed[T comparable](c *core.Ctx, r *core.Rand, tname string, val func(id
 	var o1 sync2.Once1[T]
 	var o2 sync2.Once2[int64, T]
 	var o3 sync2.Once3[int64, string, T]
-	var inv, winner atomic.Int64
+	var inv, winner, early atomic.Int64
 	var wrong atomic.Value
+	completed := 0 // plain: written by the action as its last statement
 	call := func(id int64) {
 		var a int64
 		var b string
 		var t T
-		f := func() { inv.Add(1); winner.Store(id + 1); runtime.Gosched() }
+		f := func() {
+			inv.Add(1)
+			winner.Store(id + 1)
+			for i := 0; i < 3; i++ {
+				runtime.Gosched()
+			}
+			completed = 1 // last statement of the action: every returning Do must see it
+		}
 		switch arity {
 		case 1:
 			t = o1.Do(func() T { f(); return val(id) })
@@ -415,6 +425,9 @@ func c17typed[T comparable](c *core.Ctx, r *core.Rand, tname string, val func(id
 			a, t = o2.Do(func() (int64, T) { f(); return id + 100, val(id) })
 		case 3:
 			a, b, t = o3.Do(func() (int64, string, T) { f(); return id + 100, fmt.Sprint("r", id), val(id) })
+		}
+		if completed != 1 {
+			early.Add(1)
 		}
 		w := winner.Load() - 1
 		ok := t == val(w)
@@ -446,6 +459,24 @@ func c17typed[T comparable](c *core.Ctx, r *core.Rand, tname string, val func(id
 	for l := 0; l < late; l++ {
 		call(int64(ng + l))
 	}
+	// a later caller may pass a nil function: it is never invoked, the stored results come back
+	{
+		w := winner.Load() - 1
+		var a int64
+		var t T
+		switch arity {
+		case 1:
+			t = o1.Do(nil)
+		case 2:
+			a, t = o2.Do(nil)
+		case 3:
+			a, _, t = o3.Do(nil)
+		}
+		if t != val(w) || (arity >= 2 && a != w+100) {
+			c.Violate(fmt.Sprintf("Once%d:results[nil function]", arity), fmt.Sprintf("a Do(nil) call made after the invocation returned (%d,%v) instead of the values of the one invocation (%d,%v)", a, t, w+100, val(w)), nil)
+			return false
+		}
+	}
 	c.Count("rounds", 1)
 	c.Count("rounds_last_result_"+tname, 1)
 	c.Count("do_calls", int64(ng+late))
@@ -455,6 +486,10 @@ func c17typed[T comparable](c *core.Ctx, r *core.Rand, tname string, val func(id
 	}
 	if m, _ := wrong.Load().(string); m != "" {
 		c.Violate(fmt.Sprintf("Once%d:results[last result %s]", arity, tname), "a Do call returned values other than those of the one invocation: "+m, extra)
+		return false
+	}
+	if n := early.Load(); n != 0 {
+		c.Violate(fmt.Sprintf("Once%d:returned-before-completion[last result %s]", arity, tname), fmt.Sprintf("%d Do calls returned before the invocation had completed (its last write was not visible)", n), extra)
 		return false
 	}
 	return true
@@ -532,6 +567,59 @@ func c17nested(c *core.Ctx, r *core.Rand) bool {
 			c.Violate("Once1:nested:invocations", fmt.Sprintf("a later Do on value %d of the chain ran its function", k), extra)
 			return false
 		}
+	}
+	return true
+}
+
+// c17zeroSize: result types of size zero (struct{}, [0]int): there is nothing to store,
+// but every Do must still wait for the one invocation to complete and nobody else's
+// function may run.
+func c17zeroSize(c *core.Ctx, r *core.Rand) bool {
+	ng := r.Range(2, 8)
+	var o1 sync2.Once1[struct{}]
+	var o2 sync2.Once2[struct{}, [0]int]
+	two := r.Bool()
+	var inv, early atomic.Int64
+	completed := 0
+	hold := time.Duration(r.Intn(40)) * time.Microsecond
+	call := func() {
+		f := func() {
+			inv.Add(1)
+			runtime.Gosched()
+			if hold > 0 {
+				time.Sleep(hold)
+			}
+			completed = 1
+		}
+		if two {
+			o2.Do(func() (struct{}, [0]int) { f(); return struct{}{}, [0]int{} })
+		} else {
+			o1.Do(func() struct{} { f(); return struct{}{} })
+		}
+		if completed != 1 {
+			early.Add(1)
+		}
+	}
+	var wg sync.WaitGroup
+	start := make(chan struct{})
+	for g := 0; g < ng; g++ {
+		wg.Add(1)
+		go func() { defer wg.Done(); <-start; call() }()
+	}
+	close(start)
+	if !joinOrDeadlock(c, &wg, "Once:zero-size-results", "a round of concurrent Do calls on a Once with zero-size results", nil) {
+		return false
+	}
+	call()
+	c.Count("rounds", 1)
+	c.Count("rounds_zero_size_results", 1)
+	if n := inv.Load(); n != 1 {
+		c.Violate("Once:invocations[zero-size results]", fmt.Sprintf("%d functions were invoked on a Once whose results have size zero", n), nil)
+		return false
+	}
+	if n := early.Load(); n != 0 {
+		c.Violate("Once:returned-before-completion[zero-size results]", fmt.Sprintf("%d Do calls on a Once whose results have size zero returned before the invocation had completed", n), nil)
+		return false
 	}
 	return true
 }
